@@ -163,7 +163,7 @@ Qed.
 Definition is_micro (it : item) : bool :=
   match it with
   | IPostLock _ _ _ _ _ _ | IPostSub _ _ _ _ | IPostIntr _ _ _ | ICwLoad _ | ICwWait _ _ | ICwCas _ _
-  | IDlLoad _ | IDlCas _ _ | IDlAnd _ | IDlWLoad _ | IDlWWait _ _ => true
+  | IDlLoad _ | IDlCas _ _ | IDlAnd _ | IDlWLoad _ | IDlWWait _ _ | IPollWait _ | IPollLeave => true
   | _ => false
   end.
 
